@@ -171,6 +171,33 @@ func cbInv(prev, cur M) string {
 	return ""
 }
 
+// FinishedAtBirth (C05): a registration converted in this batch is a wake-up still to be delivered — the task is live after
+// the batch, unless it is a resume task whose own root promise (another promise) was completed later in the same batch.
+// Returns the promise id, the task id and a description of the first such task that is already finished.
+func FinishedAtBirth(prev, cur M) (string, string, string) {
+	ps := byKey(rows(cur, "promises"), "id")
+	before := byKey(rows(prev, "promises"), "id")
+	tasks := byKey(rows(cur, "tasks"), "id")
+	for _, cb := range rows(prev, "callbacks") {
+		pid := str(cb["promiseId"])
+		was, okb := before[pid]
+		nowp, okn := ps[pid]
+		if !(okb && okn && num(was["state"]) == 1 && num(nowp["state"]) != 1) {
+			continue
+		}
+		t, ok := tasks[str(cb["id"])]
+		if !ok || num(t["state"]) == 1 {
+			continue
+		}
+		root := str(t["rootPromiseId"])
+		rp, okr := ps[root]
+		if root == pid || !okr || num(rp["state"]) == 1 {
+			return pid, str(cb["id"]), fmt.Sprintf("registration %q on promise %q became a task that is already in state %d when the completion commits (root promise %q): the wake-up is never delivered", str(cb["id"]), pid, num(t["state"]), root)
+		}
+	}
+	return "", "", ""
+}
+
 // C07: counters never decrease; completed / timed-out tasks never change; no task disappears
 func taskMono(prev, cur M) string {
 	now := byKey(rows(cur, "tasks"), "id")
